@@ -111,6 +111,9 @@ func (fc *FnCtx) call(instr ssa.Instruction, c *ssa.CallCommon, st *State, g *sm
 	for _, a := range c.Args {
 		args = append(args, fc.val(a))
 	}
+	for _, a := range args {
+		fc.markEscaped(a)
+	}
 	ord, okOrd := fc.staticOrd[instr]
 	if !okOrd || fc.staticName[instr] != name {
 		fc.callOrd[name]++
@@ -282,6 +285,13 @@ func (fc *FnCtx) applyContract(cs *spec.FuncSpec, name string, args []Val, resT 
 	for _, a := range cs.Assigns {
 		ec := &evalCtx{fc: fc, vars: vars, cur: pre, old: pre}
 		fc.lastElemsSlice = nil
+		if fkeys, fref, fsorts, isFields := ec.fieldLocations(a); isFields {
+			for i, k := range fkeys {
+				fc.getHeap(st, k, fsorts[i])
+				fc.writeKey(st, k, fref, fc.S.Fresh("hv_"+k, fsorts[i]))
+			}
+			continue
+		}
 		key, ref, vs := ec.location(a)
 		if key == "elems" && fc.lastElemsSlice != nil {
 			// only the slice's window [off, off+cap) of the backing array can change
@@ -572,6 +582,12 @@ func (fc *FnCtx) frameCheck(vars map[string]Val, st *State, g *smt.Term, where s
 	whole := map[string]bool{}
 	for _, a := range fc.C.Assigns {
 		ec := &evalCtx{fc: fc, vars: vars, cur: fc.entry, old: fc.entry}
+		if fkeys, fref, _, isFields := ec.fieldLocations(a); isFields {
+			for _, k := range fkeys {
+				allowed[k] = append(allowed[k], fref)
+			}
+			continue
+		}
 		key, ref, _ := ec.location(a)
 		if key == "*" {
 			return
@@ -729,5 +745,32 @@ func (fc *FnCtx) callOrdinals() {
 		cnt[s.name]++
 		fc.staticOrd[s.in] = cnt[s.name]
 		fc.staticName[s.in] = s.name
+	}
+}
+
+// markEscaped records that a freshly allocated object is now visible to other code.
+func (fc *FnCtx) markEscaped(v Val) {
+	if v.T != nil {
+		if k, ok := freshRefKey(v.T); ok {
+			fc.escaped[k] = true
+		}
+		if v.T.Op == "mkslice" {
+			if k, ok := freshRefKey(v.T.Args[0]); ok {
+				fc.escaped[k] = true
+			}
+		}
+	}
+	if v.Loc != nil && v.Loc.Base != nil {
+		if k, ok := freshRefKey(v.Loc.Base); ok {
+			fc.escaped[k] = true
+		}
+	}
+	for _, f := range v.Fs {
+		fc.markEscaped(f)
+	}
+	if v.Clo != nil {
+		for _, b := range v.Clo.Bindings {
+			fc.markEscaped(b)
+		}
 	}
 }
